@@ -2059,10 +2059,8 @@ static cfg_value_t *cfg_opt_getval(cfg_opt_t *opt, unsigned int index)
 	if (opt->simple_value.ptr)
 		val = (cfg_value_t *)opt->simple_value.ptr;
 	else {
-		if (is_set(CFGF_RESET, opt->flags)) {
-			cfg_free_value(opt);
-			opt->flags &= ~CFGF_RESET;
-		}
+		/* setting a value by index works on what the option holds, defaults included */
+		opt->flags &= ~CFGF_RESET;
 
 		if (index >= opt->nvalues)
 			val = cfg_addval(opt);
